@@ -76,6 +76,15 @@ def configs(ctx):
     out.append({"solver": "hybrid", "n": 3, "edges": [(0, 1), (1, 2), (0, 2)], "n_emitter": 1, "compiler": "dm",
                 "n_hof": 2, "n_stop": 6 if ctx.quick else 10, "n_pop": 6 if ctx.quick else 10, "k": 2,
                 "selection": True, "adapt": False, "seed": 9136})
+    # a population of a few dozen circuits (the size the solver's defaults and the examples use), both solvers
+    big = [("hybrid", 3, [(0, 1), (1, 2)], 1, 30), ("hybrid", 4, [(0, 1), (1, 2), (2, 3)], 1, 40),
+           ("hybrid", 4, [(0, 1), (1, 2), (1, 3), (3, 2), (0, 2)], 2, 30), ("hybrid", 3, [(0, 1), (1, 2)], 1, 60),
+           ("hybrid", 3, [(0, 1), (1, 2), (0, 2)], 1, 50), ("hybrid", 4, [(0, 1), (1, 2), (2, 3)], 1, 60),
+           ("evolutionary", 3, [(0, 1), (1, 2)], 1, 30)]
+    for solver, nq, edges, ne, n_pop in big * 2 if ctx.quick else big * 6:
+        out.append({"solver": solver, "n": nq, "edges": edges, "n_emitter": ne, "compiler": "stabilizer",
+                    "n_hof": rng.choice([8, 12, 20]), "n_stop": 4 if ctx.quick else 8, "n_pop": n_pop, "k": 2,
+                    "selection": True, "adapt": False, "seed": rng.randrange(10000)})
     return out
 
 
